@@ -97,8 +97,11 @@ CLAIMED = {
              "independently on the implementation's own U_full.",
         technique="Lean 4 proof (Laplace expansion of the permanent, fibre-sum/orbit counting for the Fock isometry) "
                   "over an executable model + correspondence check",
-        note="Trusted: thewalrus.perm computes the permanent (cross-checked against the exact model every case).",
-        ref="§5 C03"),
+        note="Trusted: thewalrus.perm computes the permanent (cross-checked against the exact model every case). Also proved: "
+             "the permanent of a rank-one matrix is k! prod a prod b, hence the closed form of the amplitude when all k photons "
+             "enter or leave through one mode (bunched_input_amplitude / bunched_output_amplitude); the check evaluates the "
+             "clause with it for up to 20 photons, where the occupation factorials leave the 64-bit range (F34 found there).",
+        ref="§5 C03, §13.8"),
     "C04": dict(
         text="Lean theorems over the executable distribution model (both backends, sqrt-free SLOS recursion, "
              "pdist_calc): non-negativity, photon bound, one entry per pattern, marginalisation over loss "
@@ -109,8 +112,10 @@ CLAIMED = {
         technique="Lean 4 proofs over an executable model of both backends + correspondence check with exact rationals",
         note="Also proved: slos = permanent at amplitude level (layer recursion = perm/t!), backends agree on every "
              "non-vacuum pattern for every truncation, exact normalisation (total = 1) for unitary U_full and for "
-             "mixtures. Floating point is outside the model (exact rationals).",
-        ref="§5 C04"),
+             "mixtures. Floating point is outside the model (exact rationals). The check also runs the SLOS model on few modes "
+             "with up to 30 photons (F35: int64 wrap of the factorial normalisation found there) and moves the global "
+             "sampler_probability_threshold between cases.",
+        ref="§5 C04, §13.8"),
     "C05": dict(
         text="Executable Lean model of post-selection rules, Analyzer.analyze (outputs, loss-configuration sums, "
              "performance, error rate) and QuickSampler; the property's cross-object relations are evaluated "
@@ -125,8 +130,12 @@ CLAIMED = {
              "(sums to one); squared simulator amplitude = sampler probability (lossless). The check also drives all "
              "four objects through histories (every ordered pair of reads around every reconfiguration) and expected "
              "mappings of every accepted shape. Division by a zero accepted total is "
-             "undefined in the code (NaN) and total in the model; compared only when defined.",
-        ref="§5 C05"),
+             "undefined in the code (NaN) and total in the model; compared only when defined. The PostSelection object "
+             "itself is a state machine in the model (LW.Model.PostSel, theorems LW/Properties/PostSel.lean: refused add is "
+             "a no-op, rules are append-only, the modes listing is exactly the modes of the stored rules, one rule per "
+             "mode unless multi_rules, validate = conjunction of the rules, adding rules only shrinks the accepted set) and "
+             "is compared call by call with lightworks.PostSelection on random histories.",
+        ref="§5 C05, §13.8"),
     "C07": dict(
         text="Lean theorems for every tape/seed: the variate-to-outcome map is an interval of length p_k/sum (so the "
              "push-forward of the uniform tape is the normalised distribution); the detector kernel is a probability "
@@ -150,8 +159,10 @@ CLAIMED = {
         note="PARTIAL: PRNG contracts (numpy Generator.choice = inverse CDF on Generator.random, stdlib random) are "
              "trusted and self-tested each run (the limit theorems assume an ideal i.i.d. uniform tape; no law of "
              "large numbers is proved for the rejection loop of sample_N_inputs as a whole, only for its selection "
-             "step and the detector law). Known finding F13 (Sampler.sample ignores heralds).",
-        ref="§5 C07"),
+             "step and the detector law). Known finding F13 (Sampler.sample ignores heralds). The PostSelection object "
+             "the sampling methods apply is modelled as a state machine (LW.Model.PostSel; theorems in "
+             "LW/Properties/PostSel.lean, also for rules sharing a mode) and compared call by call with the implementation.",
+        ref="§5 C07, §13.8"),
     "C11": dict(
         text="Lean refinement theorems over the cache model (26): if the computed value factors through the "
              "configuration snapshot then, after ANY history of reconfigurations and reads - including computations "
@@ -262,9 +273,18 @@ CLAIMED = {
              "whole noiseless pipeline (mle_model_consistent_corrected, under the minimal hypothesis that len(data) is "
              "non-zero in the scalar field - true in characteristic 0, shown necessary, and refuted without it over "
              "F_49). The optimiser is run on the implementation and checked against the 0.99 / CPTP bound on every case.",
-        technique="Lean 4 proof (dual bases, Pauli twirl) over an executable model; MLE optimiser validated numerically",
-        note="PARTIAL: convergence of the projected-gradient loop and numpy pinv/eigh/solve are outside the proof.",
-        ref="§5 C16"),
+        technique="Lean 4 proof (dual bases, Pauli twirl; projections onto the TP set and the PSD cone) over an executable "
+                  "model + model/implementation correspondence check; convergence of the MLE optimiser validated numerically",
+        note="MLE projection steps modelled (LW.Model.MLEProj) and proved (LW/Properties/C16Proj.lean): _tp_proj returns a "
+             "matrix with identity partial trace, fixes such matrices, is idempotent and keeps Hermitian matrices Hermitian; "
+             "_cp_proj returns a positive semi-definite matrix for ANY output of eigh, and with eigh's contract the Moreau "
+             "decomposition holds (nearest PSD matrix); _cptp_proj returns an output of the CP step; every pgdb iterate is "
+             "positive semi-definite for every data set, step sizes in [0,1] and any number of iterations (pgdb_returns_positive), "
+             "and trace preservation is an invariant under an exactly trace-preserving projection. The steps are executed by "
+             "the driver on exact Gaussian-rational data and compared with MLETomographyAlgorithm._tp_proj/_cp_proj/_cptp_proj. "
+             "PARTIAL: convergence of Dykstra's iteration and of the projected gradient descent (the 0.99 bound, trace "
+             "preservation beyond the stopping tolerance) and numpy pinv/eigh/solve are outside the proof.",
+        ref="§5 C16, §13.8"),
     "C06": dict(
         text="The Lean model of the source (outcome table, per-mode and cross-mode combination with fresh labels, "
              "empty-mode grouping, label canonicalisation, thresholding, annotated_state_pdist_calc) is proved, for all "
